@@ -74,6 +74,23 @@ def r2_amount(ctx, F):
         ctx.check("R2-mark-amount", "consume/after-copy", len(cl) == 1 and b.dominates(cl[0].bb, md[0].bb),
                   "consume marks memory dirty before the copy has told how many bytes it wrote", loc=md[0].loc())
 
+    # who marks: only consume (after the copy, by the copied amount) and the async file read; a marking placed anywhere else is
+    # by an amount nobody has written yet (over-marking on short reads and errors)
+    callers = {}
+    for k, fb in F.fns.items():
+        if not k.startswith("transport::"):
+            continue
+        for c in live_calls(fb):
+            if c.name == "mark_dirty" and (c.self_adt == IOB or "IoBuffers" in (c.callee or "")):
+                owner = fb
+                while owner.kind in ("closure", "coroutine") and owner.owner in F.fns:
+                    owner = F.fns[owner.owner]
+                callers.setdefault(owner.name, c)
+    for nm, c in sorted(callers.items()):
+        ctx.check("R2-mark-amount", "marker/" + nm, nm in ("consume", "async_write_from_at"),
+                  "%s marks guest memory dirty itself; only IoBuffers::consume (after the copy, by the amount copied) may" % nm, loc=c.loc())
+    ctx.check("R2-mark-amount", "marker/consume-present", "consume" in callers, "IoBuffers::consume no longer marks dirty (callers of mark_dirty: %s)" % sorted(callers), loc=b.loc())
+
 
 def r2_async(ctx, A):
     from rules.c20 import async_frame
@@ -201,6 +218,6 @@ META = {
     "text": "Decides: only the slice allocators expose guest memory; the single consumer marks dirty exactly when asked, after the copy, the amount the "
             "copy reported, and marks the same amount used; consume_for_write/read are exact constant-flag forwarders; all VirtioFsWriter write "
             "methods use the write-side wrapper and no writer uses the read-side one; the dirty walk truncates like the allocator and stops only "
-            "at count 0 or end of chain; the async file-read path marks what it marks used.",
+            "at count 0 or end of chain; the async file-read path marks what it marks used; nothing else calls IoBuffers::mark_dirty.",
     "note": "Not decided: page-granular minimality (no over-marking) beyond `amount = bytes written`; bitmap implementation of vm-memory.",
 }
